@@ -144,3 +144,19 @@ SPECS['C16'] = dict(
     quick=dict(workers=16, cases=300, size=100, timeout=1500),
     thorough=dict(workers=16, cases=20000, size=100, timeout=7200),
 )
+
+SPECS['C09'] = dict(
+    kind='native', drivers=['p_c09.cpp'], shims=['sut_strm', 'sut_fill', 'sut_inst'], with_lib=True,
+    level='exploration',
+    technique='generated hostile-but-accepted RRULE/DTSTART text under ASan+bounds and a CPU budget (rapidcheck), direct filler calls on exact-size buffers; libFuzzer target with the same oracle',
+    level_text=('Semantically odd but syntactically accepted rules (maximal BYHOUR x BYMINUTE x BYSECOND products, incongruent INTERVAL/BYxxx, out-of-range ordinals and '
+                'DTSTART fields, huge COUNT/INTERVAL, UNTIL before DTSTART, every extension) are run through the fillers on an exact 128-slot heap block and through '
+                'parser -> stream -> 300 pops; any sanitizer report, a filler result beyond 64 slots or COUNT, or exceeding 30 CPU seconds (after a 10 s first try) fails.'),
+    level_note='the CPU budget is the executable meaning of "bounded work"; leaks are not part of the property (LeakSanitizer off)',
+    rule=('case = (DTSTART text incl. out-of-range fields and years 0000/9999, RRULE text assembled from odd value sets); every case runs the direct filler call and the '
+          'full parser/stream path in a forked ASan child. non-trivial = the rule has a list, an INTERVAL or a COUNT (not a plain single-value rule); distinct = case text'),
+    assumptions=['a budget overrun is only reported after the same case also overran a 3x budget',
+                 'what dates come out is not judged here'],
+    quick=dict(workers=16, cases=300, size=100, timeout=1500),
+    thorough=dict(workers=16, cases=30000, size=100, timeout=7200),
+)
